@@ -292,7 +292,7 @@ func (cap *commandArgParser) parseEachInput(args redisArgs, input ...respValue) 
 				return
 			}
 
-			if !foundMultiple && arg.Optional && arg.isToken() {
+			if arg.Optional && arg.isToken() {
 				// optional value args that have tokens can be reordered
 				skippedOptionals = append(skippedOptionals, arg)
 			}
